@@ -39,12 +39,14 @@ struct HistInstance
     value : RuleHistory,
 }
 
-fn gen_history(rng : &mut Rng) -> HistInstance
+/* `min_bytes` > 0: a long-lived rule, enough remembered source states for a file of at least that size */
+fn gen_history(rng : &mut Rng, min_bytes : usize) -> HistInstance
 {
-    let n = match rng.below(6) { 0 => 0, 1 => 1, 2 => rng.range(2, 5), _ => rng.range(0, 50) };
+    let mut n = match rng.below(6) { 0 => 0, 1 => 1, 2 => rng.range(2, 5), _ => rng.range(0, 50) };
     let mut rh = RuleHistory::new();
     let mut keys = vec![];
     let n_targets = rng.range(1, 8);
+    if min_bytes > 0 { n = min_bytes / (40 + 41 * n_targets) + 2; }
     for _ in 0..n
     {
         let k = ticket(rng);
@@ -72,9 +74,10 @@ fn gen_path(rng : &mut Rng) -> String
     }
 }
 
-fn gen_table(rng : &mut Rng) -> TableInstance
+fn gen_table(rng : &mut Rng, min_bytes : usize) -> TableInstance
 {
-    let n = match rng.below(6) { 0 => 0, 1 => 1, 2 => rng.range(2, 5), _ => rng.range(0, 50) };
+    let mut n = match rng.below(6) { 0 => 0, 1 => 1, 2 => rng.range(2, 5), _ => rng.range(0, 50) };
+    if min_bytes > 0 { n = min_bytes / 50 + 2; }
     let mut entries : BTreeMap<String, FileState> = BTreeMap::new();
     for _ in 0..n
     {
@@ -217,7 +220,11 @@ fn one_instance(kind : &str, seed : u64, with_faults : bool, stats : &mut Stats)
     let w = world(read_chunk, write_chunk);
     let garbage_rule = TicketFactory::from_str("garbage").result();
 
-    let (hist, table) = if kind == "history" { (Some(gen_history(&mut rng)), None) } else { (None, Some(gen_table(&mut rng))) };
+    // one instance in 40 is a state file of a long-lived workspace: just beyond 64 KiB, 1 MiB or (rarely) 16 MiB
+    let min_bytes = if rng.chance(1, 40) { stats.inc("c16.large_instances"); match rng.below(16) { 0 => 1usize << 24, 1..=7 => 1 << 20, _ => 1 << 16 } } else { 0 };
+    let (read_chunk, write_chunk) = if min_bytes > 0 { (if read_chunk == 1 || read_chunk == 7 { 255 } else { read_chunk }, if write_chunk > 0 && write_chunk < 64 { 4096 } else { write_chunk }) } else { (read_chunk, write_chunk) };
+    let w = if min_bytes > 0 { world(read_chunk, write_chunk) } else { w };
+    let (hist, table) = if kind == "history" { (Some(gen_history(&mut rng, min_bytes)), None) } else { (None, Some(gen_table(&mut rng, min_bytes))) };
     let written = match (&hist, &table)
     {
         (Some(h), _) => write_history(&w, h),
@@ -260,8 +267,15 @@ fn one_instance(kind : &str, seed : u64, with_faults : bool, stats : &mut Stats)
         return out;
     }
 
-    // every strict prefix must be rejected
-    for n in 0..bytes.len()
+    // every strict prefix must be rejected (large files: both ends and a sample)
+    let prefix_lengths : Vec<usize> = if bytes.len() <= 20_000 { (0..bytes.len()).collect() } else
+    {
+        let mut v : Vec<usize> = (0..64).collect();
+        v.extend((0..96).map(|_| rng.below(bytes.len() as u64) as usize));
+        v.extend(bytes.len() - 64..bytes.len());
+        v
+    };
+    for n in prefix_lengths
     {
         let o = read_back(kind, &w, &bytes[..n], hist.as_ref(), table.as_ref(), &garbage_rule);
         cell("prefix", pos_class(n, bytes.len()), &o, stats);
@@ -278,7 +292,7 @@ fn one_instance(kind : &str, seed : u64, with_faults : bool, stats : &mut Stats)
 
     // single bit flips: every position of small instances, 256 sampled otherwise
     let total_bits = bytes.len() * 8;
-    let positions : Vec<usize> = if bytes.len() <= 400 { (0..total_bits).collect() } else { (0..256).map(|_| rng.below(total_bits as u64) as usize).collect() };
+    let positions : Vec<usize> = if bytes.len() <= 400 { (0..total_bits).collect() } else { (0..(if bytes.len() > 20_000 { 64 } else { 256 })).map(|_| rng.below(total_bits as u64) as usize).collect() };
     if bytes.len() <= 400 { stats.inc("c16.instances_with_exhaustive_bit_flips"); }
     for bit in positions
     {
